@@ -47,7 +47,9 @@ func main() {
 	config.DefConfig.P2PNode.NetworkId = config.NETWORK_ID_MAIN_NET
 	switch os.Args[1] {
 	case "pow-replay":
-		powReplay()
+		powReplay(false)
+	case "btc-replay":
+		powReplay(true)
 	case "pow-record":
 		powRecord(atoi(os.Args[2]), atoi(os.Args[3]))
 	case "rules-table":
